@@ -336,6 +336,38 @@ def rule_strict_sites(repo, rep):
                     % (val, want))
 
 
+def rule_prior_inputs(repo, rep):
+  R = 'R-FLOW:prior-computed-from-the-training-tuples'
+  rep.rule(R, 'the tuple learners hand the validated tuple array itself (or '
+           'its de-duplicated points) to _initialize_metric_mahalanobis, so '
+           "that 'covariance' is taken over the DISTINCT training points")
+  for cname, pname in (('ITML', 'pairs'), ('MMC', 'pairs'), ('SDML', 'pairs'),
+                       ('LSML', 'quadruplets')):
+    c = repo.get_class(cname)
+    f = repo.resolve_method(c, '_fit')
+    dom = AlgDomain()
+    dom.max_states = 16
+    t = 4 if cname == 'LSML' else 2
+    eng = Engine(repo, dom, self_cls=c)
+    eng.run(f, args={pname: V(Tup('T', list(range(t))), ty='ndarray')})
+    rep.analysed(f)
+    seen = getattr(dom, 'prior_inputs', [])
+    if not seen:
+      rep.unknown(R, cname + '._fit', site(f), 'no call observed')
+    for (d, s) in seen:
+      txt = repr(d)
+      if isinstance(d, Tup) and not d.base.startswith('distinct-tuples'):
+        rep.derived(R, cname + '._fit', s)
+      elif isinstance(d, Poly) and txt.startswith('distinct('):
+        rep.derived(R, cname + '._fit', s)
+      elif d is UNKNOWN:
+        rep.unknown(R, cname + '._fit', s, 'argument not derivable')
+      else:
+        rep.refuted(R, cname + '._fit', s, 'the prior is computed from %s: '
+                    'points shared by several tuples are counted with '
+                    'repetition' % txt)
+
+
 def rule_components_init(repo, rep):
   Rt = 'R-TABLE:init-options'
   rep.rule(Rt, "_initialize_components accepts and dispatches every "
@@ -517,5 +549,6 @@ def check(repo, rep, tier):
   rule_components_from_metric(repo, rep)
   rule_metric_init(repo, rep)
   rule_strict_sites(repo, rep)
+  rule_prior_inputs(repo, rep)
   rule_components_init(repo, rep)
   rule_scml_basis_table(repo, rep)
